@@ -91,6 +91,12 @@ def schemas(draw, cfg=None):
     cfg = dict(cfg or {})
     nm = Namer(draw, cfg)
     sname = nm.fresh()
+    excluded = []
+    if sname in CXX_KW:
+        # finding F38: the schema name is emitted verbatim as a C++ namespace (typedef::t_x): does not compile.
+        excluded.append("schema named with a bare C++ keyword (finding F38)")
+        sname = sname + "_s"
+        nm.used.add(sname)
     if draw(st.booleans()):
         sname = sname + draw(st.sampled_from(["_schema", "_ap", "203", "_mim_lf", "_x1"]))
         nm.used.add(sname)
@@ -395,7 +401,7 @@ def schemas(draw, cfg=None):
             e["where"].append({"label": "wr1", "expr": "EXISTS(%s) OR TRUE" % own[0]})
 
     # case noise at declaration sites only (references keep lower case; EXPRESS is case-insensitive)
-    d = {"name": sname, "types": types, "entities": ents, "tags": {"kwish": nm.kwish}}
+    d = {"name": sname, "types": types, "entities": ents, "tags": {"kwish": nm.kwish, "excluded": excluded}}
     return d
 
 
